@@ -200,6 +200,28 @@ Theorem c14_pick_none : forall tbl ch ks alg,
                          Forall (fun k => ~ In (k_kty k) kts) ks.
 Proof. exact pick_none. Qed.
 
+
+(* pick_random_key filters by key type ONLY: the candidate list commutes with
+   any change of the keys that keeps their key types (e.g. replacing private
+   keys by their public-only counterparts: the recipient key of a JWE
+   encryption is picked from a PUBLIC set), every key of a listed type is a
+   candidate, and a key is returned whenever the set has one of a listed type *)
+Theorem c14_pick_ignores_privateness : forall tbl (f : key -> key) ks alg,
+  (forall k, k_kty (f k) = k_kty k) ->
+  pick_candidates tbl (map f ks) alg =
+  match pick_candidates tbl ks alg with Ok c => Ok (map f c) | Err e => Err e end.
+Proof. exact pick_candidates_kty_only. Qed.
+
+Theorem c14_pick_complete : forall tbl ks alg c kts,
+  pick_candidates tbl ks alg = Ok c -> algkeys_get tbl alg = Ok (Some kts) -> kts <> [] ->
+  forall k, In k c <-> In k ks /\ In (k_kty k) kts.
+Proof. exact pick_candidates_complete. Qed.
+
+Theorem c14_pick_some : forall tbl ch ks alg kts k0,
+  algkeys_get tbl alg = Ok (Some kts) -> kts <> [] -> In k0 ks -> In (k_kty k0) kts ->
+  exists k, pick_random_key tbl ch ks alg = Ok (Some k).
+Proof. exact pick_some. Qed.
+
 (* key selection fails only with InvalidKeyIdError, ValueError ("Invalid key"),
    or — producing side, caller's own header without / with an unhashable alg — KeyError / TypeError *)
 Theorem c14_guess_errors : forall tbl ch kf g ur e,
@@ -494,6 +516,9 @@ Print Assumptions c14_pick_merged.
 Print Assumptions c14_json_protected_untouched.
 Print Assumptions c14_pick_spec.
 Print Assumptions c14_pick_none.
+Print Assumptions c14_pick_ignores_privateness.
+Print Assumptions c14_pick_complete.
+Print Assumptions c14_pick_some.
 Print Assumptions c14_guess_errors.
 Print Assumptions c14_ch_idx_ok.
 Print Assumptions c14_produce_consume.
